@@ -134,9 +134,9 @@ def expected_rows(node, open_paths, path):
     return rows
 
 
-def render(root, cookie, click):
+def render(root, cookie, click, opts=''):
     from DocumentTemplate.DT_HTML import HTML
-    t = HTML('<dtml-tree expr="root">[<dtml-var ident>]</dtml-tree>')
+    t = HTML('<dtml-tree expr="root"%s>[<dtml-var ident>]</dtml-tree>' % opts)
     resp = Resp()
     kw = dict(root=root, URL='http://h/doc', RESPONSE=resp)
     if cookie:
@@ -144,16 +144,32 @@ def render(root, cookie, click):
     kw.update(click)
     out = t(**kw)
     rows = re.findall(r'\[([^\]]*)\]', out)
-    links = re.findall(r'href="[^"?]*\?(tree-[ce])=([^"#&]*)', out)
+    links = re.findall(r'<a name="([^"]*)" href="[^"?]*\?(tree-[ce])=([^"#&]*)', out)
     return rows, links, resp.cookies.get('tree-s')
+
+
+def _path_of(root, ident, node=None, path=('r',)):
+    node = node or root
+    for k in node.kids:
+        p = path + (k.ident,)
+        if k.ident == ident:
+            return p
+        r = _path_of(root, ident, k, p)
+        if r:
+            return r
+    return None
 
 
 def click_search(big=False):
     from TreeDisplay import TreeTag as T
     n = 0
     maxlen = 4 if big else 3
-    for root in trees():
-        # breadth-first over click histories: a click is the index of a link in the page last rendered
+    # tag options: the links of a node WITH children must behave the same under assume_children; under that option a
+    # childless node also carries an expand link (the tag cannot know), which is followed too: it must change nothing
+    # else (rows of the other nodes, their links, the cookie entries of the other nodes)
+    for opts in ('', ' assume_children'):
+      for root in trees():
+        # breadth-first over click histories: a click is a link of the page last rendered
         frontier = [((), None, {('r',)})]
         for depth in range(maxlen + 1):
             nxt = []
@@ -161,29 +177,42 @@ def click_search(big=False):
                 last_click = hist[-1] if hist else {}
                 n += 1
                 try:
-                    rows, links, newcookie = render(root, cookie, last_click if isinstance(last_click, dict) else {})
+                    rows, links, newcookie = render(root, cookie, last_click if isinstance(last_click, dict) else {}, opts)
                 except Exception as e:  # noqa
-                    return n, dict(tree=root.ident, history=repr(hist), raised=repr(e))
+                    return n, dict(tree=root.ident, options=opts, history=repr(hist), raised=repr(e))
                 want = expected_rows(root, model, ('r',))
                 if rows != want:
-                    return n, dict(history=[repr(h) for h in hist], rows=rows, expected=want, what='rows shown differ from the model')
+                    return n, dict(options=opts, history=[repr(h) for h in hist], rows=rows, expected=want, what='rows shown differ from the model')
                 st = T.decode_seq(newcookie) if newcookie else []
                 got = to_paths([s if len(s) == 2 else [s[0], []] for s in st])
-                exp_open = {p for p in model if True}
-                if {p for p in got} - {('r',)} != {p for p in exp_open if p != ('r',) and _has_kids(root, p)} and got != exp_open:
-                    return n, dict(history=[repr(h) for h in hist], cookie_state=sorted(got), expected=sorted(exp_open), what='cookie describes another set')
+                got_k = {p for p in got if p != ('r',) and _has_kids(root, p)}
+                exp_k = {p for p in model if p != ('r',) and _has_kids(root, p)}
+                if got_k != exp_k:
+                    return n, dict(options=opts, history=[repr(h) for h in hist], cookie_state=sorted(got), expected=sorted(model), what='cookie describes another set')
                 if depth == maxlen:
                     continue
                 # one toggle link per node with children, each toggling exactly that node
                 nodes_with_kids = [p for p in _shown_paths(root, model) if _has_kids(root, p)]
-                if len(links) != len(nodes_with_kids):
+                by_node = {}
+                for name, kind, val in links:
+                    by_node.setdefault(_path_of(root, name), []).append((kind, val))
+                for p in nodes_with_kids:
+                    if len(by_node.get(p, [])) != 1:
+                        return n, dict(options=opts, history=[repr(h) for h in hist], node=p, links=by_node.get(p), what='not exactly one link for a node with children')
+                if not opts and len(links) != len(nodes_with_kids):
                     return n, dict(history=[repr(h) for h in hist], links=len(links), nodes_with_children=len(nodes_with_kids), what='not exactly one link per node with children')
-                for (kind, val), p in zip(links, nodes_with_kids):
-                    expand = kind == 'tree-e'
-                    if expand == (p in model):
-                        return n, dict(history=[repr(h) for h in hist], node=p, link=kind, what='link does not toggle the node')
-                    m2 = model_apply(model, p, expand)
-                    nxt.append((hist + ({kind: urllib.parse.unquote(val)},), newcookie, m2))
+                for p, lst in by_node.items():
+                    if p is None:
+                        return n, dict(options=opts, history=[repr(h) for h in hist], what='link for a node that is not shown', links=links)
+                    for kind, val in lst:
+                        expand = kind == 'tree-e'
+                        if _has_kids(root, p):
+                            if expand == (p in model):
+                                return n, dict(options=opts, history=[repr(h) for h in hist], node=p, link=kind, what='link does not toggle the node')
+                            m2 = model_apply(model, p, expand)
+                        else:
+                            m2 = model      # a childless node has nothing to show or forget: no other node may be affected
+                        nxt.append((hist + ({kind: urllib.parse.unquote(val)},), newcookie, m2))
             frontier = nxt[:400 if big else 150]
     return n, None
 
